@@ -16,7 +16,7 @@ RULE = ("Hypothesis generates documents with fixed layouts and with length-depen
         "the packet, every computed length is a non-negative integer, and consumed bits == 8*len(p) (vf/xref.py). "
         "clean => yielded without the 'Number of bits parsed' warning under both settings and raw_data.pos == "
         "reference sum of widths; decodable but consumed != 8*len => yielded WITH the warning (parse_bad_pkts=True) and "
-        "withheld (False), cursor == sum of widths; field beyond the end or negative length => warning / withheld or "
+        "withheld (False), cursor == sum of widths, also after a second parse of the same raw packet object; field beyond the end or negative length => warning / withheld or "
         "an exception, never yielded without the warning. Unrecognised packets are out of scope (C05). Non-trivial: "
         "packet not clean, or clean with a dynamic length; distinct by hash of (document, packet).")
 ASSUMPTIONS = ["only the length-mismatch warning ('Number of bits parsed ...') is interpreted; other warnings are ignored",
@@ -94,6 +94,18 @@ def check_case(ctx, case):
             if out and out[0].raw_data.pos != res.pos:
                 return ctx.fail("cursor", f"{what}: cursor {out[0].raw_data.pos} after the parse, expected {res.pos} "
                                           f"(sum of the widths of the decoded fields)", case)
+            if out and parse_bad:
+                # a second successful parse of the very same raw packet object: the cursor is again the sum of widths
+                from space_packet_parser import packets as _pk
+                try:
+                    again = defn.parse_ccsds_packet(_pk.CCSDSPacket(raw_data=out[0].raw_data))
+                except Exception as e:  # noqa: BLE001
+                    return ctx.fail("reparse-raised", f"{what}: parsing the yielded packet's raw data again raised {e!r}",
+                                    case, bucket="reparse-raised:" + exc_sig(e))
+                if again.raw_data.pos != res.pos or list(again) != list(out[0]):
+                    return ctx.fail("reparse-cursor", f"{what}: second parse of the same raw packet object ends with "
+                                                      f"cursor {again.raw_data.pos} and items {list(again)[:12]}, expected "
+                                                      f"cursor {res.pos} and items {list(out[0])[:12]}", case)
         else:
             # a field beyond the end of the packet or a negative computed length
             if exc is not None:
